@@ -16,7 +16,7 @@ EXPLANATION = (
     "every tick that TickMarker::new's assert!(tick > prev) would reject: the refusal is `tick <= last_tick`, last_tick is assigned "
     "the written tick on the success path, and Writer::write_tick assigns prev_tick the same tick.  R3 (reader tick guard): "
     "current_tick = Some(t) for an absolute marker is dominated by the `previous >= t` false edge; inline deltas use checked_add.  "
-    "R1c: the writer's largest inline tick delta per format version equals the mask the reader applies for that version.  R2b: a refused write_snap leaves the writer untouched (every write to *self lies behind the pass edge of the tick test).  Not decided: the round trip of chunk sequences / typed object sets (value level)."
+    "R1d: every header kind is built under the exact flag / version conditions (TICKMARKER, INLINETICK, KEYFRAME, legacy masks) and the writer asserts exactly version >= V5, dt <= max_tick_delta, !keyframe.  R1c: the writer's largest inline tick delta per format version equals the mask the reader applies for that version.  R2b: a refused write_snap leaves the writer untouched (every write to *self lies behind the pass edge of the tick test).  Not decided: the round trip of chunk sequences / typed object sets (value level)."
 )
 ASSUMPTIONS = [
     "reviewed table lines confirmed by reading the code",
@@ -43,6 +43,7 @@ def run(ctx, rep):
     reader_ticks(ctx.prog, rep)
     refused_is_inert(ctx.prog, rep)
     tick_delta_width(ctx.prog, rep)
+    marker_conditions(ctx.prog, rep)
 
 
 def header_tables(prog, rep):
@@ -360,3 +361,56 @@ def tick_delta_width(prog, rep):
            "max_tick_delta = %s: %#x from V5 on (below the INLINETICK flag %#x), %#x before" % (tab, new_mask, inline_flag, legacy_mask)
            if not bad else "; ".join(bad) + ": a larger inline delta spills into the flag bits and plays back shortened", mt.loc())
     rep.ob(rule, "inline delta does not overlap the flag bits", new_mask & inline_flag == 0, "mask %#x & INLINETICK %#x == 0" % (new_mask, inline_flag), rd.loc())
+
+
+def marker_conditions(prog, rep):
+    """R1d: the exact conditions under which ChunkHeader::read builds each kind of header (an operator sweep: the demo crate has
+    no tests, so `!=` -> `==` on any of these flag tests went unnoticed), and what ChunkHeader::write asserts"""
+    from .common import holds_at, asserted_relations, want_relations
+    rule = "R1d-marker-conditions"
+    rd = prog.one(D + "format::ChunkHeader::read")
+    ir = IR(rd)
+    c = lambda n: prog.constv(D + "format::" + n)
+    M5, M3 = c("CHUNKTICKMASK_TICK_V5"), c("CHUNKTICKMASK_TICK_V3")
+    n = 0
+    for bi in sorted(rd.live):
+        for si, st in enumerate(rd.blocks[bi]["st"]):
+            if st["k"] != "assign" or st["r"]["k"] != "agg":
+                continue
+            var = st["r"].get("variant")
+            adt = (st["r"].get("adt") or "").split("::")[-1]
+            rels = holds_at(ir, bi)
+            at = rd.loc(st.get("ln"))
+            legacy = any(r[0] != "bool" and r[1] == "Lt" and "version" in show(strip_sites(r[0])) for r in rels)
+            if adt == "TickMarker" and var == "Delta":
+                n += 1
+                if legacy:
+                    want_relations(rep, rule, "read | legacy inline delta", rels, [("CHUNKTICKMASK_TICK_V3", "Ne", 0), ("version", "Lt", "bytes:05"), ("CHUNKTYPEFLAG_TICKMARKER", "Ne", 0)], at, "TickMarker::Delta (V3/V4)")
+                else:
+                    want_relations(rep, rule, "read | inline delta", rels, [("CHUNKTICKFLAG_INLINETICK", "Ne", 0), ("version", "Ge", "bytes:05"), ("CHUNKTYPEFLAG_TICKMARKER", "Ne", 0)], at, "TickMarker::Delta (V5+)")
+            elif adt == "TickMarker" and var == "Absolute":
+                n += 1
+                if legacy:
+                    want_relations(rep, rule, "read | legacy absolute tick", rels, [("CHUNKTICKMASK_TICK_V3", "Eq", 0), ("version", "Lt", "bytes:05")], at, "TickMarker::Absolute (V3/V4)")
+                else:
+                    want_relations(rep, rule, "read | absolute tick", rels, [("CHUNKTICKFLAG_INLINETICK", "Eq", 0), ("version", "Ge", "bytes:05")], at, "TickMarker::Absolute (V5+)")
+            elif adt == "ChunkHeader" and var == "Tick":
+                n += 1
+                want_relations(rep, rule, "read | tick marker chunk", rels, [("CHUNKTYPEFLAG_TICKMARKER", "Ne", 0)], at, "ChunkHeader::Tick")
+                e = ir.rvalue(st["r"], (bi, si))
+                kf = dict(e[4]).get("keyframe")
+                okk = kf is not None and kf[0] == "bin" and kf[1] == "Ne" and "CHUNKTICKFLAG_KEYFRAME" in show(strip_sites(kf[2])) and kf[3][0] == "c" and kf[3][1] == 0
+                rep.ob(rule, "read | keyframe flag", okk, "keyframe = flags & CHUNKTICKFLAG_KEYFRAME != 0" if okk else "keyframe = %s" % show(strip_sites(kf))[:80], at)
+            elif adt == "ChunkHeader" and var == "Data":
+                n += 1
+                want_relations(rep, rule, "read | data chunk", rels, [("CHUNKTYPEFLAG_TICKMARKER", "Eq", 0)], at, "ChunkHeader::Data")
+    rep.floor(rule, n, 6, "header constructions in ChunkHeader::read")
+    for bi, t in rd.calls():
+        if (t.get("callee") or "").endswith("::warn") and "NonZeroTickmarkerPadding" in show(strip_sites(ir.call_expr(bi, t))):
+            want_relations(rep, rule, "read | padding warning", holds_at(ir, bi), [("CHUNKTICKMASK_TICK_V5", "Ne", 0)], rd.loc(t.get("ln")), "warn(NonZeroTickmarkerPadding)")
+    wr = prog.one(D + "format::ChunkHeader::write")
+    wir = IR(wr)
+    asserts = [r for r, ln in asserted_relations(wr, wir)]
+    want_relations(rep, rule, "write | asserted preconditions", asserts,
+                   [("version", "Ge", "bytes:05"), (".0", "Le", "max_tick_delta"), ("keyframe", "bool", False)], wr.loc(),
+                   "ChunkHeader::write asserts version >= V5, dt <= max_tick_delta(version), !keyframe for an inline delta")
